@@ -141,11 +141,19 @@ def _two_threads():
                      {"kind": 0, "grouped": False, "forker": False, "state": "running", "mops": [{"at": 120, "op": "start", "yield": True}]}]}
 
 
+def _escalated_quit():
+    """quit_gracefully(long grace) then quit() in the same action: an abort, prompt whatever the command does"""
+    return {"steps": [{"at_ms": 30, "acts": [{"job": 0, "op": "create", "script": CHILD[2][1], "grouped": False}, {"job": 0, "op": "start"}]},
+                      {"at_ms": 400, "acts": [], "quit": {"manner": "graceful-then-abort", "sig": "Terminate", "grace_ms": 1500}}],
+            "wait_ms": 2500, "settle_ms": 200, "tq": 400, "manner": "abort", "qsig": "Terminate", "qgrace": 1500, "same_action": False,
+            "jobs": [{"kind": 2, "grouped": False, "forker": False, "state": "running", "mops": [{"at": 30, "op": "start", "yield": True}]}]}
+
+
 SCEN_CORPUS = [
     # several jobs whose commands all ignore the signal: they are stopped concurrently, one grace period in total
     _three_ignoring(400),
     # a job created and started in the action that quits, its handle cloned and kept elsewhere
-    _same_action_cloned("graceful"), _same_action_cloned("abort"), _session_abort(), _delete_pending("graceful"), _delete_pending("abort"), _pending_long_restart(), _two_threads(),
+    _same_action_cloned("graceful"), _same_action_cloned("abort"), _session_abort(), _delete_pending("graceful"), _delete_pending("abort"), _pending_long_restart(), _two_threads(), _escalated_quit(),
     # known finding: grouped command, leader exits on the signal, another member ignores it
     {"steps": [{"at_ms": 30, "acts": [{"job": 0, "op": "create", "script": CHILD[0][1] + ",fork_ignorer=1", "grouped": True}, {"job": 0, "op": "start"}]},
                {"at_ms": 400, "acts": [], "quit": {"manner": "graceful", "sig": "Terminate", "grace_ms": 250}}],
@@ -171,6 +179,8 @@ def run_parallel(binname, sub, cases, tag, procs=16):
         objs = []
         while len(objs) < len(chunks[k]):          # (h_cli onbusy) a hung case ends the process: resume after it
             rc, part, txt = run_harness(binname, [sub, f, os.path.join(d, f"fs{k}"), str(len(objs))], timeout=900)
+            if binname == "h_cli":      # (--only-emit-events makes the instance under test print events on the same stdout)
+                part = [x for x in part if isinstance(x, dict) and "id" in x and ("main" in x or "hung" in x or "error" in x)]
             if rc != 0 or not part or (len(objs) + len(part) < len(chunks[k]) and not part[-1].get("hung")):
                 return rc or 1, objs + part, txt
             objs += part
@@ -302,12 +312,16 @@ class C08(Prop):
                 (["--debounce=1s", "--stop-timeout=300ms"], "Interrupt", [2], [], "exit_after=20000,on_term=exit:0"),
                 (["--filter-prog", FP, "--stop-timeout=300ms"], "Terminate", [15], [], "exit_after=20000,on_term=exit:0"),
                 (["--filter-prog", FP, "--stop-timeout=300ms"], "Interrupt", [2], [], "exit_after=20000,on_term=ignore"),
-                (["--map-signal=TERM:HUP"], "Terminate", [15], [15], "exit_after=20000,on_hup=ignore")]:
-            oscli.append({"id": len(cli) + len(oscli), "args": args, "child_script": script, "events": [{"k": "os_signal", "sig": sig, "at_ms": 400}],
+                (["--map-signal=TERM:HUP"], "Terminate", [15], [15], "exit_after=20000,on_hup=ignore"),
+                # --only-emit-events: a throttled signal opens the debounce window, the terminate signal arrives inside it and closes it at once:
+                # the action carries both, and it quits
+                (["--only-emit-events", "--debounce=1s"], ["User1", "Terminate"], [10, 15], [], "exit_after=20000,on_term=exit:0")]:
+            evl = [{"k": "os_signal", "sig": sg, "at_ms": 400 + 200 * j} for j, sg in enumerate(sig if isinstance(sig, list) else [sig])]
+            oscli.append({"id": len(cli) + len(oscli), "args": args, "child_script": script, "events": evl,
                           "wait_ms": 2800, "m": (sigs, mapped, False, False, args),
                           # the property bounds the time from the handler's quit request; how long the signal takes to reach the
                           # handler is not bounded by it, so a debounce window is allowed for (the filter must not stop it, though)
-                          "slack_ms": 1000 if "--debounce=1s" in args else 0})
+                          "slack_ms": 1000 if "--debounce=1s" in args else 0, "no_command": "--only-emit-events" in args})
         try:
             cobs = run_parallel("h_cli", "onbusy", cli, "c08c", procs=8)
             cobs += run_parallel("h_cli", "onbusy", oscli, "c08cos", procs=len(oscli))
@@ -340,7 +354,8 @@ class C08(Prop):
                                   "clause": "C08_cli_signal_quits: interrupt/terminate/EOF did not shut the CLI down (the instance stalled)"})
                 continue
             sent = [s for s in o["sent"] if s["k"] != "startup"]
-            dur = o["t_end"] - sent[0]["t"] if sent else None
+            dur = o["t_end"] - sent[-1]["t"] if sent else None          # (measured from the last signal sent)
+            only_emit = "--only-emit-events" in cc["args"]                  # no command is run in that mode
             got = [l["sig"] for l in o["child_log"] if l["ev"] == "signal"]
             if m == "no":
                 if o["main"] != "timeout":
@@ -362,7 +377,7 @@ class C08(Prop):
                     ok = False
                     c.failing.append({"case": brief, "impl": {"ms": dur}, "expected": {"grace": grace},
                                       "clause": "C08: the command ignoring the stop signal was killed before the stop timeout (the graceful quit was not graceful)"})
-                if got[:1] != [sig]:
+                if got[:1] != [sig] and not only_emit:
                     ok = False
                     c.failing.append({"case": brief, "impl": {"signals": got}, "expected": sig, "clause": "C08_cli_first_quit_is_graceful: the command did not receive the stop signal"})
                 if o["alive_after"]:
